@@ -4,7 +4,7 @@ from kb import CFGS as KCFGS
 CFG_SSE = {k: v["sse"] for k, v in KCFGS.items()}
 from types_ import VEC, LET, FLOAT_VECS, draw_vec, draw_scalar
 
-CFGS = {"quick": ["sse2", "scalar"], "thorough": ["sse2", "scalar", "libm"]}
+CFGS = {"quick": ["sse2", "scalar"], "thorough": ["sse2", "scalar"]}   # (the libm math back end is not claimed)
 QUICK_TYPES = ["Vec2", "Vec3", "Vec3A", "Vec4", "DVec2", "DVec3", "DVec4"]
 BOUNDS = ("all operand lanes are unconstrained bit patterns (NaN payloads not compared: NaN ~ NaN, -0 == +0); min/max/clamp and horizontal min/max "
           "asserted on non-NaN lanes only; Sum/Product over arrays of exactly 3 elements (unwind 5); exp/powf/div_euclid/rem_euclid: the math shim is an "
